@@ -685,7 +685,7 @@ class Interp(EvalMixin, BuiltinMixin):
                 if self.is_subclass_exc(whens[k - 1][0], exc_name):
                     run.assume(zbool(truth(self.ev(parse_expr(text), sfr))))
             self.py_raise(whens[k - 1][0])
-        if con.returns_ is not None and "'match'" in repr(con.returns_):
+        if con.returns_ is not None and ("'match'" in repr(con.returns_) or "'cdict'" in repr(con.returns_)):
             result = self.make_value(con.returns_, "ret")
         else:
             result = fresh(con.returns_, "ret", run) if con.returns_ is not None and not _has_alias(con.returns_) else None
